@@ -306,6 +306,24 @@ func checkPackage(u *gengotypes.Universe, p gengotypes.Package, files []string, 
 		},
 	}
 	accessors = append(accessors, func() error {
+		// predeclared identifiers are not package-scope names (unless the package declares them itself)
+		for _, n := range []string{"int", "string", "error", "any", "bool", "comparable", "true", "false", "iota", "nil", "len", "append", "byte"} {
+			if scope.Lookup(n) != nil {
+				continue
+			}
+			if o := p.Type(n); o != nil {
+				return fmt.Errorf("%s: Type(%q) = %v, the package declares no such type", path, n, o)
+			}
+			if o := p.Constant(n); o != nil {
+				return fmt.Errorf("%s: Constant(%q) = %v, the package declares no such constant", path, n, o)
+			}
+			if o := p.Function(n); o != nil {
+				return fmt.Errorf("%s: Function(%q) = %v, the package declares no such function", path, n, o)
+			}
+		}
+		return nil
+	})
+	accessors = append(accessors, func() error {
 		// the blank identifier names nothing
 		if o := p.Type("_"); o != nil {
 			return fmt.Errorf("%s: Type(\"_\") = %v, the blank identifier is not a package-scope name", path, o)
@@ -320,7 +338,7 @@ func checkPackage(u *gengotypes.Universe, p gengotypes.Package, files []string, 
 	first := int(h.Sum32() % uint32(len(accessors)))
 	for i := range accessors {
 		if err := accessors[(first+i)%len(accessors)](); err != nil {
-			return fmt.Errorf("%w (accessor #%d of 7 was the first one called on the package)", err, first)
+			return fmt.Errorf("%w (accessor #%d of 8 was the first one called on the package)", err, first)
 		}
 	}
 	for _, n := range wantTypes {
